@@ -37,10 +37,11 @@ ATTRS = ("a", "b", "s", "u")
 
 
 def _setup(work, rows):
-    """tables ti (rows 1..36: a, b vary) and ts (rows 37..72: s, u vary), ids = row index in the specification"""
+    """tables ti (rows 1..36: a, b vary) and ts (rows 37..72: s, u vary), ids = row index in the specification.
+    One database file PER PROCESS: the workers write (and roll back), a shared file would make them wait on SQLite's write lock."""
     import sqlalchemy as sa
     from sqlalchemy.orm import declarative_base
-    path = os.path.join(work, "c43.db")
+    path = os.path.join(work, "c43-%d.db" % os.getpid())
     fresh = not os.path.exists(path)
     eng = sa.create_engine("sqlite:///" + path)
     Base = declarative_base()
@@ -278,6 +279,9 @@ def _worker(chk, fam, rows, idx, bulk_idx):
                 s.execute(stmt)
             except sa.exc.InvalidRequestError as e:
                 outcome = "unevaluatable" if "Could not evaluate" in str(e) else "raises " + type(e).__name__
+            except sa.exc.DBAPIError as e:
+                # the database refusing the statement is an environment / harness problem, not a verdict on synchronisation
+                return dict(out, machinery="SQLite refused %s: %s" % (root, str(e).splitlines()[0][:200]))
             except Exception as e:  # noqa
                 outcome = "raises " + type(e).__name__
             out["strat"][strat + ":" + outcome] = out["strat"].get(strat + ":" + outcome, 0) + 1
@@ -381,8 +385,6 @@ def main(chk):
     fam.by_key = {c.key: c for c in fam.cases}
     rows = fam.rows
     t1 = time.time()
-    eng, TI, TS = _setup(chk.work, rows)
-    eng.dispose()
     n = len(fam.cases)
     # which statements go through the Session: all UPDATEs, and all DELETEs (thorough) / a seeded sample of them (quick)
     dels = [i for i, c in enumerate(fam.cases) if c.node.k == "del"]
